@@ -9,6 +9,7 @@
 //   wb gc      < lines        real global_control create/destroy -> real threading_control::set_active_num_workers -> world
 //   wb slots <rand seed n | dfs bound max | replay s,c,h,e,d> < scenario     E-SHIM: arena::occupy_free_slot / release
 //   wb pend  <rand seed n | dfs bound max | replay ...>      < scenario     E-SHIM: thread_request_serializer::update
+//   wb mand  <rand seed n | dfs bound max | replay ...>      < scenario     E-SHIM: arena::advertise_new_work / out_of_work (mandatory concurrency)
 #include "tbb/arena.cpp"
 #include "tbb/market.h"
 #include "tbb/threading_control.h"
@@ -448,6 +449,127 @@ static bool pend_run_once(verif::Schedule& sch, int run_idx, bool print) {
     return ok;
 }
 
+// --- mandatory concurrency: advertise_new_work / out_of_work on a real arena of the white-box world -----------------
+//   cfg <max_concurrency> <reserved> <soft limit>        th <actions>   (e enqueue, s "spawn": critical-stream push + advertise<work_spawned>,
+//   o out_of_work, p pop one enqueued task, g pop one "spawned" task)
+// Every access to my_mandatory_concurrency / my_pool_state / the fifo population word is printed (busy values as 2+tid); after the
+// controlled run a sequential tail drains the fifo stream and calls out_of_work() once more: the mandatory request must be gone.
+struct mtask : d1::task {
+    d1::task* execute(d1::execution_data&) override { return nullptr; }
+    d1::task* cancel(d1::execution_data&) override { return nullptr; }
+};
+static unsigned g_mmaxc = 1, g_mres = 1, g_msoft = 0;
+static std::vector<std::string> g_mprog;
+
+static bool mand_run_once(verif::Schedule& sch, int run_idx, bool print) {
+    world_t W; W.build(g_msoft, 1u << 20);
+    W.impl->my_waiting_threads_monitor = make_cache_aligned_unique<thread_control_monitor>();
+    arena& a = arena::allocate_arena(nullptr, g_mmaxc, g_mres, 0);
+    pm_client* pc = W.mkt->create_client(a);
+    d1::constraints cs;
+    W.impl->my_permit_manager->register_client(pc, cs);
+    a.my_threading_control = W.tc;
+    a.my_tc_client = threading_control_client(pc, (thread_dispatcher_client*)1);
+    size_t T = g_mprog.size();
+    std::vector<std::function<void()>> bodies;
+    for (size_t t = 0; t < T; ++t) bodies.push_back([&, t] {
+        FastRandom rnd((void*)(uintptr_t)(0x1000u * (t + 1) + 16u * (unsigned)run_idx));
+        unsigned hint = (unsigned)t, chint = (unsigned)t;
+        for (char c : g_mprog[t]) {
+            if (c == 'e') {
+                verif::note("act", 1, 0);
+                a.my_fifo_task_stream.push(new mtask, random_lane_selector(rnd));
+                a.advertise_new_work<arena::work_enqueued>();
+            } else if (c == 's') {
+                verif::note("act", 2, 0);
+                a.my_critical_task_stream.push(new mtask, random_lane_selector(rnd));
+                a.advertise_new_work<arena::work_spawned>();
+            } else if (c == 'o') {
+                verif::note("act", 3, 0);
+                a.out_of_work();
+            } else if (c == 'p') {
+                verif::note("act", 4, 0);
+                if (!a.my_fifo_task_stream.empty()) delete a.my_fifo_task_stream.pop(subsequent_lane_selector(hint));
+            } else if (c == 'g') {
+                if (!a.my_critical_task_stream.empty()) delete a.my_critical_task_stream.pop(preceding_lane_selector(chint));
+            }
+        }
+    });
+    verif::Result res = verif::run(bodies, sch);
+    auto words = [&](const char* tag) {
+        thread_request_serializer& sr = W.prox->my_serializer;
+        std::printf("%s mand=%d pool=%d hasEnq=%d mandReq=%d totalReq=%d minW=%d maxW=%d marketMand=%d proxyMand=%d allotted=%u serTotal=%d handed=%lld\n", tag,
+                    a.my_mandatory_concurrency.test() ? 1 : 0, a.my_pool_state.test() ? 1 : 0, a.my_fifo_task_stream.empty() ? 0 : 1,
+                    a.my_mandatory_requests, a.my_total_num_workers_requested, pc->my_min_workers, pc->my_max_workers, W.mkt->my_mandatory_num_requested,
+                    W.prox->my_num_mandatory_requests.load(std::memory_order_relaxed), a.my_num_workers_allotted.load(std::memory_order_relaxed),
+                    sr.my_total_request.load(std::memory_order_relaxed), W.srv.sum);
+    };
+    std::string gerr; char buf[240];
+    auto monitor = [&](const char* when) {
+        int flag = a.my_mandatory_concurrency.test() ? 1 : 0, req = a.my_mandatory_requests, mm = W.mkt->my_mandatory_num_requested;
+        int pm = W.prox->my_num_mandatory_requests.load(std::memory_order_relaxed);
+        if (gerr.empty() && !(req == flag && mm == flag && pm == flag && pc->my_min_workers == flag)) {
+            snprintf(buf, sizeof buf, "%s: mandatory flag %d but my_mandatory_requests %d, market my_mandatory_num_requested %d, serializer proxy %d, min_workers %d",
+                     when, flag, req, mm, pm, pc->my_min_workers);
+            gerr = buf;
+        }
+    };
+    bool ok = true;
+    if (!res.deadlock) {
+        if (print) {
+            std::printf("run %d\ncfg %u %u %u %zu\n", run_idx, a.my_num_slots, a.my_num_reserved_slots, a.my_max_num_workers, T);
+            std::map<uint64_t, int> busy;
+            auto val = [&](uint64_t v) -> unsigned long long { if (v <= 1) return v; auto it = busy.find(v); return it == busy.end() ? 99 : 2 + it->second; };
+            for (auto& e : res.log) {
+                if (e.kind == verif::K_NOTE) { if (e.tag && !strcmp(e.tag, "act")) std::printf("e %d act %llu\n", e.tid, (unsigned long long)e.a); continue; }
+                if (e.kind > verif::K_FXOR) continue;
+                const char* var = e.addr == (const void*)&a.my_mandatory_concurrency.my_state ? "mand" : e.addr == (const void*)&a.my_pool_state.my_state ? "pool"
+                                : e.addr == (const void*)&a.my_fifo_task_stream.population ? "fifo" : nullptr;
+                if (!var) continue;
+                if (var[0] == 'f') {
+                    if (e.kind == verif::K_LOAD) std::printf("e %d load fifo %d\n", e.tid, e.a ? 1 : 0);
+                    else if (e.kind == verif::K_FOR) std::printf("e %d or fifo\n", e.tid);
+                    else if (e.kind == verif::K_FAND) std::printf("e %d and fifo %d\n", e.tid, e.b ? 1 : 0);
+                    else std::printf("e %d other fifo\n", e.tid);
+                    continue;
+                }
+                if (e.kind == verif::K_CAS && e.ok && e.a == 1 && e.b > 1) busy[e.b] = e.tid;
+                if (e.kind == verif::K_LOAD) std::printf("e %d load %s %llu\n", e.tid, var, val(e.a));
+                else if (e.kind == verif::K_CAS) std::printf("e %d cas %s %llu %llu %d\n", e.tid, var, val(e.a), val(e.b), e.ok);
+                else std::printf("e %d other %s\n", e.tid, var);
+            }
+            words("fin");
+        }
+        monitor("at rest after the concurrent phase");
+        // sequential tail: the enqueued work is taken, then an idle thread polls out_of_work()
+        unsigned hint = 0; int pops = 0;
+        while (!a.my_fifo_task_stream.empty()) { delete a.my_fifo_task_stream.pop(subsequent_lane_selector(hint)); ++pops; }
+        bool ht = a.has_tasks();
+        a.out_of_work();
+        if (print) { std::printf("tail %d %d\n", pops, ht ? 1 : 0); words("fin2"); }
+        monitor("after the fifo stream was drained and out_of_work() returned");
+        if (gerr.empty() && (a.my_mandatory_concurrency.test() || a.my_mandatory_requests != 0 || pc->my_min_workers != 0)) {
+            snprintf(buf, sizeof buf, "no enqueued task is left and out_of_work() returned, but the mandatory request is not withdrawn (flag %d, my_mandatory_requests %d, has_tasks %d)",
+                     a.my_mandatory_concurrency.test() ? 1 : 0, a.my_mandatory_requests, ht ? 1 : 0);
+            gerr = buf;
+        }
+        if (gerr.empty() && g_msoft == 0 && a.my_num_workers_allotted.load(std::memory_order_relaxed) != 0) {
+            snprintf(buf, sizeof buf, "soft limit 0, no enqueued work, but %u worker(s) stay allotted to the arena", a.my_num_workers_allotted.load(std::memory_order_relaxed));
+            gerr = buf;
+        }
+    }
+    ok = gerr.empty() && !res.deadlock;
+    if (print || !ok) {
+        if (!print) std::printf("run %d\n", run_idx);
+        std::printf("mon %s%s\n", gerr.empty() ? (res.deadlock ? "DEADLOCK" : "ok") : "VIOLATION ", gerr.c_str());
+        std::printf("sched"); for (int x : res.schedule) std::printf(" %d", x);
+        std::printf("\nend\n");
+        std::fflush(stdout);
+    }
+    if (res.deadlock) { std::fflush(stdout); _exit(3); }
+    return ok;
+}
+
 int main(int argc, char** argv) {
     if (argc < 2) return 2;
     std::string mode = argv[1];
@@ -464,7 +586,7 @@ int main(int argc, char** argv) {
     if (mode == "pure") return line_loop(pure_line);
     if (mode == "world") return line_loop(world_line);
     if (mode == "gc") return line_loop(gc_line);
-    if ((mode == "slots" || mode == "pend") && argc >= 4) {
+    if ((mode == "slots" || mode == "pend" || mode == "mand") && argc >= 4) {
         sched_args sa{argv[2], argv[3], argc > 4 ? atol(argv[4]) : 1};
         char line[4096];
         while (fgets(line, sizeof line, stdin)) {
@@ -472,11 +594,15 @@ int main(int argc, char** argv) {
             if (mode == "slots") {
                 if (w == "cfg") is >> g_maxc >> g_reserved;
                 else if (w == "th") { std::string k; int r; unsigned fi; is >> k >> r >> fi; g_sth.push_back({k == "w", r, (unsigned short)fi}); }
+            } else if (mode == "mand") {
+                if (w == "cfg") is >> g_mmaxc >> g_mres >> g_msoft;
+                else if (w == "th") { std::string pr; is >> pr; g_mprog.push_back(pr); }
             } else {
                 if (w == "cfg") { is >> g_psoft; int d; while (is >> d) g_pdeltas.push_back(d); }
             }
         }
         if (mode == "slots") return drive_schedules(sa, slots_run_once);
+        if (mode == "mand") return drive_schedules(sa, mand_run_once);
         return drive_schedules(sa, pend_run_once);
     }
     return 2;
